@@ -294,6 +294,7 @@ def main(argv=None):
         "known_findings_hit": {k: v["n"] for k, v in known_hit.items()},
         "new_violation_signatures": sorted({f"{v['kind']}|{v.get('sig','')}|{r.get('class')}" for r, v in new_viol})[:40],
         "worker_notes": notes[:5],
+        "slowest_cases_s": sorted(((r.get("wall", 0), r.get("class")) for r in ordered), reverse=True)[:3],
         "minima_unmet": minima_msgs,
         "repo_state": core.repo_state(),
     }
